@@ -4,7 +4,9 @@ import Sqljson.Model.Ast
 # Numeric helpers — mirror of `exec/compare.go` (numbers), `exec/math.go`, `exec/util.go`,
 and the callbacks of `exec/method.go`
 
-`int64` arithmetic is `Int` arithmetic followed by `wrap64`, so overflow is visible.
+`int64` arithmetic is `Int` arithmetic followed by `wrap64`, so overflow is visible.  Binary `+ - * /` on two
+integers whose exact result leaves the int64 range is carried out on doubles instead (`int64Math`); unary minus and
+`.abs()` still wrap (`applyI`).
 -/
 
 namespace Sqljson
@@ -122,14 +124,32 @@ def floatMath (l r : F64) (op : BinOp) : Except MathErr F64 :=
 def liftI (r : Except MathErr Int) : Except MathErr Item := r.map Item.int
 def liftF (r : Except MathErr F64) : Except MathErr Item := r.map Item.flt
 
+/-- the exact (unbounded) integer result of the four operators whose result can leave the int64 range -/
+def exactInt (l r : Int) (op : BinOp) : Int :=
+  match op with
+  | .add => l + r
+  | .sub => l - r
+  | .mul => l * r
+  | .div => Int.tdiv l r
+  | _ => 0
+
+/-- `int64MathOverflows(lhs, rhs, op)`: the exact result of `+ - * /` is outside the int64 range (for `/` that is
+    only `MinInt64 / -1`; a zero divisor gives `tdiv l 0 = 0`, i.e. no overflow; `%` and non-math operators never) -/
+def int64MathOverflows (l r : Int) (op : BinOp) : Bool := !(Item.inInt64 (exactInt l r op))
+
+/-- `executeInt64Math`: in float64 when the exact result does not fit, else `executeIntegerMath` -/
+def int64Math (l r : Int) (op : BinOp) : Except MathErr Item :=
+  if int64MathOverflows l r op then liftF (floatMath (F64.ofInt l) (F64.ofInt r) op)
+  else liftI (integerMath l r op)
+
 /-- `execMathOp` with the left operand already an int64 -/
 def mathOpI (a : Int) (r : Item) (op : BinOp) : Except MathErr Item :=
   match r with
-  | .int b => liftI (integerMath a b op)
+  | .int b => int64Math a b op
   | .flt b => liftF (floatMath (F64.ofInt a) b op)
   | .jnum s =>
     match Decimal.jnumInt64 s with
-    | .ok b => liftI (integerMath a b op)
+    | .ok b => int64Math a b op
     | .error _ =>
       match Decimal.jnumFloat64 s with
       | .ok b => liftF (floatMath (F64.ofInt a) b op)
